@@ -23,6 +23,7 @@ var compArmedDelay = Comp{"$armedDelay", "(Array Int Int)", false}
 var compArmedFn = Comp{"$armedFn", "(Array Int Int)", false}
 var compLogsRemoved = Comp{"$logsRemoved", "(Array Int Bool)", false}
 var compUUIDFailed = Comp{"$uuidFailed", "Bool", false}
+var compWgWaited = Comp{"$wgWaited", "Bool", false}
 
 func unit(resT types.Type) *Val { return &Val{T: resT} }
 
@@ -218,6 +219,36 @@ func initExterns() {
 	sortH("sort.Slice")
 	sortH("sort.SliceStable")
 	sortH("sort.Strings")
+	externs["(*sync.WaitGroup).Wait"] = &externH{mods: []string{"$wgWaited"}, doc: "WaitGroup.Wait returns when the counter is zero (ghost $wgWaited records that the wait happened)",
+		fn: func(tr *FnCtx, st *State, args []*Val, resT types.Type, instr ssa.Instruction, mode string) *Val {
+			tr.use("sync.WaitGroup: Wait returns after every Add has been matched by a Done (ghost flag $wgWaited only records the call)")
+			tr.set(st, compWgWaited, "true")
+			return unit(resT)
+		}}
+	externs["sync/atomic.LoadInt32"] = &externH{doc: "atomic load of the addressed cell", fn: func(tr *FnCtx, st *State, args []*Val, resT types.Type, instr ssa.Instruction, mode string) *Val {
+		tr.use("sync/atomic.LoadInt32/StoreInt32 read/write the addressed cell (sequentially consistent)")
+		return tr.loadFrom(st, args[0], resT)
+	}}
+	externs["sync/atomic.StoreInt32"] = &externH{mods: nil, doc: "atomic store", fn: func(tr *FnCtx, st *State, args []*Val, resT types.Type, instr ssa.Instruction, mode string) *Val {
+		tr.use("sync/atomic.LoadInt32/StoreInt32 read/write the addressed cell (sequentially consistent)")
+		tr.storeTo(st, args[0], &Val{T: args[1].T, A: args[1].A})
+		return unit(resT)
+	}}
+	// sort.Sort(data): calls data.Len/Less/Swap; the effect is that of repeated Swap calls
+	externs["sort.Sort"] = &externH{doc: "sort.Sort(data) only calls data.Len, data.Less and data.Swap: it modifies what Swap's contract modifies",
+		fn: func(tr *FnCtx, st *State, args []*Val, resT types.Type, instr ssa.Instruction, mode string) *Val {
+			tr.use("sort.Sort(data) has the effect of a sequence of data.Swap calls (contract of the Swap method)")
+			cs, all := tr.sortSortMods(instr)
+			if all {
+				tr.note("sort.Sort on a value whose Swap has no contract: everything havocked")
+				tr.havocAll(st)
+				return unit(resT)
+			}
+			for _, c := range cs {
+				tr.havocComp(st, c)
+			}
+			return unit(resT)
+		}}
 	externs["github.com/gofrs/uuid.FromString"] = &externH{doc: "inverse of UUID.String on valid ids",
 		fn: func(tr *FnCtx, st *State, args []*Val, resT types.Type, instr ssa.Instruction, mode string) *Val {
 			tr.use("uuid.FromString(id.String()) == id")
@@ -269,4 +300,36 @@ func (tr *FnCtx) monitorExit(st *State, args []*Val) {
 		env := &Env{tr: tr, vars: vars, st: st, old: old, pkg: tr.Pkg, allocOld: tr.allocEntry}
 		tr.oblige(fmt.Sprintf("%s/monitor[%s]", tr.Short, m.Cl.Label), "monitor", tr.evalClause(env, m.Cl), m.Cl.Src)
 	}
+}
+
+func (tr *FnCtx) sortSortMods(instr ssa.Instruction) ([]Comp, bool) {
+	ci, ok := instr.(ssa.CallInstruction)
+	if !ok || len(ci.Common().Args) == 0 {
+		return nil, true
+	}
+	mi, ok := ci.Common().Args[0].(*ssa.MakeInterface)
+	if !ok {
+		return nil, true
+	}
+	ms := tr.W.Prog.MethodSets.MethodSet(mi.X.Type())
+	sel := ms.Lookup(nil, "Swap")
+	if sel == nil {
+		for i := 0; i < ms.Len(); i++ {
+			if ms.At(i).Obj().Name() == "Swap" {
+				sel = ms.At(i)
+			}
+		}
+	}
+	if sel == nil {
+		return nil, true
+	}
+	fn := tr.W.Prog.MethodValue(sel)
+	if fn == nil || fnPkg(fn) == nil {
+		return nil, true
+	}
+	spec := tr.W.C.Funcs[pkgKey(fnPkg(fn).Pkg.Path(), fnRelName(fn))]
+	if spec == nil {
+		return nil, true
+	}
+	return tr.specMods(spec, fnPkg(fn).Pkg)
 }
